@@ -1,5 +1,5 @@
 CONSTANT Family = "scope3"
-CONSTANT MaxHist = 2
+CONSTANT MaxHist = 0
 INIT Init
 NEXT Next
 INVARIANT Emit
